@@ -4521,20 +4521,22 @@ let altitude_value m = function
 | Some code0 ->
   if N.eqb (N.coq_land code0 (Npos (XO XH))) N0
   then if N.eqb (N.coq_land code0 (Npos XH)) N0
-       then bind (graytobin m) (fun pat ->
-              let (high, low) = pat in
-              let value =
-                N.add
-                  (N.mul high (Npos (XO (XO (XI (XO (XI (XI (XI (XI
-                    XH))))))))))
-                  (N.mul low (Npos (XO (XO (XI (XO (XO (XI XH))))))))
-              in
-              if N.leb (Npos (XO (XO (XO (XO (XI (XI (XO (XI (XO (XO
-                   XH))))))))))) value
-              then Ok (Some
-                     (N.sub value (Npos (XO (XO (XO (XO (XI (XI (XO (XI (XO
-                       (XO XH)))))))))))))
-              else Ok None)
+       then if N.eqb (N.shiftr code0 (Npos (XO XH))) N0
+            then Ok None
+            else bind (graytobin m) (fun pat ->
+                   let (high, low) = pat in
+                   let value =
+                     N.add
+                       (N.mul high (Npos (XO (XO (XI (XO (XI (XI (XI (XI
+                         XH))))))))))
+                       (N.mul low (Npos (XO (XO (XI (XO (XO (XI XH))))))))
+                   in
+                   if N.leb (Npos (XO (XO (XO (XO (XI (XI (XO (XI (XO (XO
+                        XH))))))))))) value
+                   then Ok (Some
+                          (N.sub value (Npos (XO (XO (XO (XO (XI (XI (XO (XI
+                            (XO (XO XH)))))))))))))
+                   else Ok None)
        else let n0 =
               N.coq_lor
                 (N.shiftl (N.shiftr code0 (Npos (XI (XI XH)))) (Npos (XO (XO
